@@ -184,6 +184,72 @@ func collectOnceNames(f *ast.File) {
 	})
 }
 
+var reinitSrc string
+
+// collectReinit looks for the package-level initialisers of rogger's flush signalling and turns
+// them into a function that executes them again.
+func collectReinit(f *ast.File) {
+	want := map[string]bool{"syncDone": true, "syncCancel": true, "asyncDone": true, "asyncCancel": true}
+	var stmts []string
+	pkgs := map[string]bool{}
+	for _, d := range f.Decls {
+		g, ok := d.(*ast.GenDecl)
+		if !ok || g.Tok != token.VAR {
+			continue
+		}
+		for _, sp := range g.Specs {
+			vs, ok := sp.(*ast.ValueSpec)
+			if !ok || len(vs.Values) == 0 {
+				continue
+			}
+			hit := false
+			var names []string
+			for _, n := range vs.Names {
+				names = append(names, n.Name)
+				hit = hit || want[n.Name]
+			}
+			if !hit {
+				continue
+			}
+			var vals []string
+			for _, v := range vs.Values {
+				vals = append(vals, exprString(v))
+				ast.Inspect(v, func(x ast.Node) bool {
+					if se, ok := x.(*ast.SelectorExpr); ok {
+						if id, ok := se.X.(*ast.Ident); ok {
+							pkgs[id.Name] = true
+						}
+					}
+					return true
+				})
+			}
+			stmts = append(stmts, "\t"+strings.Join(names, ", ")+" = "+strings.Join(vals, ", "))
+		}
+	}
+	if len(stmts) == 0 {
+		if reinitSrc == "" {
+			reinitSrc = "package rogger\n\nfunc verifReinitFlushSignalling() {}\n"
+		}
+		return
+	}
+	var imps []string
+	for _, im := range f.Imports {
+		path, _ := strconv.Unquote(im.Path.Value)
+		name := path[strings.LastIndex(path, "/")+1:]
+		if im.Name != nil {
+			name = im.Name.Name
+		}
+		if pkgs[name] {
+			if im.Name != nil {
+				imps = append(imps, "\t"+im.Name.Name+" "+im.Path.Value)
+			} else {
+				imps = append(imps, "\t"+im.Path.Value)
+			}
+		}
+	}
+	reinitSrc = "package rogger\n\nimport (\n" + strings.Join(imps, "\n") + "\n)\n\n// generated from the package-level initialisers of the tree under test\nfunc verifReinitFlushSignalling() {\n" + strings.Join(stmts, "\n") + "\n}\n"
+}
+
 func isOnceRecv(x ast.Expr) bool {
 	switch t := x.(type) {
 	case *ast.Ident:
@@ -549,6 +615,9 @@ func main() {
 				fmt.Fprintln(os.Stderr, "parse:", err)
 				os.Exit(2)
 			}
+			if dir == "tars/util/rogger" {
+				collectReinit(f)
+			}
 			for _, d := range f.Decls {
 				if t, ok := d.(*ast.FuncDecl); ok && t.Body != nil && !(t.Name.Name == "init" && t.Recv == nil) {
 					t.Body.List = processList(t.Body.List)
@@ -608,6 +677,16 @@ func main() {
 			}
 			overlay[fn] = dst
 			nfiles++
+		}
+	}
+	// rogger: the flush signalling (two contexts) is one-shot and has to be set up again inside the
+	// bubble. The harness must not decide how: the package's own initialiser expressions are
+	// re-executed, copied from the tree under test.
+	if reinitSrc != "" {
+		dst := filepath.Join(*outdir, "inst", "tars/util/rogger", "zz_verif_reinit.go")
+		os.MkdirAll(filepath.Dir(dst), 0755)
+		if err := os.WriteFile(dst, []byte(reinitSrc), 0644); err == nil {
+			overlay[filepath.Join(*repo, "tars/util/rogger", "zz_verif_reinit.go")] = dst
 		}
 	}
 	// shims: files added to TarsGo packages
